@@ -23,6 +23,7 @@ const (
 	StepReopen  = "reopen"
 	StepRdBegin = "reader-begin"
 	StepRdEnd   = "reader-end"
+	StepSwitch  = "journal-mode-round-trip" // PRAGMA journal_mode=DELETE, one rollback-journal transaction, PRAGMA journal_mode=WAL
 )
 
 type Step struct {
@@ -80,6 +81,8 @@ func genPlan(t *rapid.T) Plan {
 			p.Steps = append(p.Steps, Step{Kind: StepRecover})
 		case k == 17:
 			p.Steps = append(p.Steps, Step{Kind: StepReopen})
+		case k == 18 && rapid.Bool().Draw(t, "switch"):
+			p.Steps = append(p.Steps, Step{Kind: StepSwitch, Tx: pager.WalTx{Tx: txs[i+1]}})
 		case k == 18:
 			p.Steps = append(p.Steps, Step{Kind: StepRdBegin})
 		default:
@@ -238,6 +241,59 @@ func runPlan(c *pbt.Case, p Plan) {
 				c.Failf("C03/recover-moved-position", "step %d: LiteFS recover moved the position %s -> %s", i, prev, pos)
 			}
 			check(i, "litefs-recover")
+		case StepSwitch:
+			if holding {
+				holder.EndRead()
+				holding = false
+			}
+			holder.Close()
+			reader.Close()
+			for round, mode := range []string{"rollback", "wal"} {
+				prev := n.Pos(name)
+				prevImg := model.Img.Clone()
+				var res pager.TxResult
+				var err error
+				if round == 0 {
+					res, err = conn.SwitchToRollback(st.Tx.Tx)
+				} else {
+					t := st.Tx.Tx
+					t.Rollback, t.NoWrite, t.SpillAfter = false, false, 0
+					res, err = conn.SwitchToWAL(t)
+				}
+				c.Notef("step %d switch to %s -> committed=%v err=%v pos=%s", i, mode, res.Committed, err, n.Pos(name))
+				if err == pager.ErrBusy {
+					c.Label("busy")
+					break
+				}
+				if err != nil {
+					c.Failf("C03/op-error", "step %d: switching the journal mode to %s was refused: %v", i, mode, err)
+				}
+				pos := n.Pos(name)
+				if !res.Committed || pos.TXID != prev.TXID+1 {
+					c.Failf("C03/commit-not-captured", "step %d: the journal_mode=%s transaction committed=%v, position %s -> %s", i, mode, res.Committed, prev, pos)
+				}
+				if sig, msg := oracle.CheckLTX(n.LTXDir(name), prev, pos, prevImg, model.Img); sig != "" {
+					c.Failf("C03/"+sig, "step %d (journal_mode=%s, %s -> %s): %s", i, mode, prev, pos, msg)
+				}
+				c.Label("journal-mode-switch")
+				nontrivial = true
+				if round == 0 {
+					// the image is now read the rollback way
+					r := pager.NewConn(n.M, model, 9100)
+					got, err := r.ReadImage()
+					r.Close()
+					if err != nil {
+						c.Failf("C03/read-error", "step %d: %v", i, err)
+					}
+					if d := got.Diff(model.Img); d != "" {
+						c.Failf("C03/image-through-mount", "step %d after journal_mode=DELETE: %s", i, d)
+					}
+					if sig, msg := n.Monitors(name); sig != "" {
+						c.Failf(sig, "step %d after journal_mode=DELETE: %s", i, msg)
+					}
+				}
+			}
+			check(i, "journal-mode-switch")
 		case StepReopen:
 			conn.Close()
 			owner++
